@@ -7,8 +7,9 @@
     collection, [configure], declaration, threshold/trigger setters)
     ∪ the explicit reorderings [OSwap], [OReorder], [OReorderPairs] with ANY
       arguments
-    ∪ [OSetRoots], and — only while dynamic reordering is disabled, because
-      they are not decorated — [OFindOrAdd], [OCopy], [OImage], [OPreimage]
+    ∪ [OSetRoots], [OCopy], [OImage], [OPreimage] (guarded: any [last_len]),
+      and — only while dynamic reordering is disabled, because it is neither
+      decorated nor guarded — [OFindOrAdd]
     ∪ the [op2] operations of [Total2] (read-only queries, dumps,
       [undeclare_vars], [__del__]).
     Outside: [OTape] (it leaves a non-empty tape behind), the pickle loads. *)
@@ -420,10 +421,12 @@ Definition extraD (o : op) : bool :=
   | OFindOrAdd _ _ _ | OCopy _ _ | OImage _ _ _ _ _ _ _ | OPreimage _ _ _ _ _ _ _ => true
   | _ => false
   end.
-(** not decorated: with dynamic reordering enabled the signal escapes (C09) *)
+(** not decorated and not guarded: with dynamic reordering enabled the signal
+    escapes from [find_or_add] (C09).  [copy_bdd], [image], [preimage] run
+    with requests disabled and restore the threshold ([guarded]). *)
 Definition needs_off (o : op) : bool :=
   match o with
-  | OFindOrAdd _ _ _ | OCopy _ _ | OImage _ _ _ _ _ _ _ | OPreimage _ _ _ _ _ _ _ => true
+  | OFindOrAdd _ _ _ => true
   | _ => false
   end.
 Definition allowed3 (o : op2) : bool :=
@@ -472,6 +475,39 @@ Proof.
   - destruct r0; rewrite Hr; [done|by intros [= ->]].
 Qed.
 
+(** a computation that is safe while requests are disabled, run through the
+    public guard from ANY [GoodD] state: the threshold is restored exactly *)
+Theorem guarded_total {A} (m : MS A) s r s' :
+  GoodD s → nrf m → nt m → tsafe m → guarded m s = (r, s') →
+  Inv s' ∧ extends s s' ∧ rctx s' = rctx s ∧ tape s' = tape s ∧ last_len s' = last_len s ∧
+  (∀ L, Counts s L → Counts s' L) ∧ r ≠ Err ENeedsReordering ∧ r ≠ Err EOracle.
+Proof.
+  intros (HI&Hc&Ht&_) Hn Hnt Hs H.
+  destruct (nt_guarded m Hnt s r s' Ht H) as [Ht' Hno].
+  pose proof (guarded_no_signal m s r s' Hn H) as Hns.
+  apply guarded_run in H as [[Hll H]|(ll&s1&Hll&H&->)].
+  - destruct (Hs s r s' HI Hll H) as (HI'&He&(E1&E2&_&E4)&HC). by split_and!.
+  - set (s0 := s <| last_len := None |>) in *.
+    assert (HI0 : Inv s0) by (apply (Inv_same s); [by repeat split|done]).
+    destruct (Hs s0 r s1 HI0 eq_refl H) as (HI1&He&(E1&E2&_&E4)&HC).
+    split_and!; try done;
+      first [ apply (Inv_same s1); [by repeat split|done]
+            | intros L HL; apply (Counts_same s1); [done..|]; apply HC; by apply (Counts_same s) ].
+Qed.
+
+Lemma guarded_dout {A} (m : MS A) (h : A → value) s r s' :
+  GoodD s → nrf m → nt m → tsafe m →
+  (x <- guarded m ;; ret (h x)) s = (r, s') → dout s r s'.
+Proof.
+  intros HG Hn Hnt Hs H. apply bind_ret_inv in H as (r0&H&Hr).
+  destruct (guarded_total m s r0 s' HG Hn Hnt Hs H) as (HI'&He&E1&E2&_&HC&Hr1&Hr2).
+  pose proof HG as (_&_&_&L&HL).
+  apply dout_extends; try done.
+  - exists L. by apply HC.
+  - destruct r0; rewrite Hr; [done|by intros [= ->]].
+  - destruct r0; rewrite Hr; [done|by intros [= ->]].
+Qed.
+
 Theorem run_op3_good w o s r s' :
   GoodD s → allowed3 o = true → is_new2 o = false → caller_ok3 s o →
   run_op2 w o s = (r, s') → dout s r s'.
@@ -507,18 +543,16 @@ Proof.
       * exists L. by apply (Counts_same s).
     + (* OCopy *)
       destruct (w !! src) as [ssrc|].
-      * apply (undecorated_dout (copy_bdd ssrc u) (fun r => VZ r) s r s' HG (Hoff eq_refl)
-                 (nrf_copy_bdd ssrc u) (nt_copy_bdd ssrc u)); [|done].
-        intros E. by apply (tsafe_copy_bdd ssrc u s _ s' HI (Hoff eq_refl) E).
+      * by apply (guarded_dout (copy_bdd ssrc u) (fun r => VZ r) s r s' HG
+                    (nrf_copy_bdd ssrc u) (nt_copy_bdd ssrc u) (tsafe_copy_bdd ssrc u)).
       * injection H as <- <-. apply safe_dout; first [done | by apply safe_refl].
     + (* OImage *)
-      apply (undecorated_dout (image t s0 byname rn qbyname q fa) (fun r => VZ r) s r s' HG
-               (Hoff eq_refl) (nrf_image _ _ _ _ _ _ _) (nt_image _ _ _ _ _ _ _)); [|done].
-      intros E. by apply (tsafe_image t s0 byname rn qbyname q fa s _ s' HI (Hoff eq_refl) E).
+      by apply (guarded_dout (image t s0 byname rn qbyname q fa) (fun r => VZ r) s r s' HG
+                  (nrf_image _ _ _ _ _ _ _) (nt_image _ _ _ _ _ _ _) (tsafe_image _ _ _ _ _ _ _)).
     + (* OPreimage *)
-      apply (undecorated_dout (preimage t s0 byname rn qbyname q fa) (fun r => VZ r) s r s' HG
-               (Hoff eq_refl) (nrf_preimage _ _ _ _ _ _ _) (nt_preimage _ _ _ _ _ _ _)); [|done].
-      intros E. by apply (tsafe_preimage t s0 byname rn qbyname q fa s _ s' HI (Hoff eq_refl) E).
+      by apply (guarded_dout (preimage t s0 byname rn qbyname q fa) (fun r => VZ r) s r s' HG
+                  (nrf_preimage _ _ _ _ _ _ _) (nt_preimage _ _ _ _ _ _ _)
+                  (tsafe_preimage _ _ _ _ _ _ _)).
   - apply (fun Hm => Hq _ Hm H). quiet2; apply quiet_count.
   - apply (fun Hm => Hq _ Hm H). quiet2; apply quiet_pick_iter.
   - apply (fun Hm => Hq _ Hm H). quiet2; apply quiet_pick.
